@@ -304,7 +304,10 @@ func (r *renderer) node(n *Node) {
 	if pos > len(hdrs) {
 		pos = len(hdrs)
 	}
-	hdrs = append(hdrs[:pos], append([]string{"title" + sep + n.Title}, hdrs[pos:]...)...)
+	if n.Title != "" || len(hdrs) == 0 {
+		// (a node may legally have no title header as long as it has some header)
+		hdrs = append(hdrs[:pos], append([]string{"title" + sep + n.Title}, hdrs[pos:]...)...)
+	}
 	for _, h := range hdrs {
 		r.sb.WriteString(h + r.nl)
 	}
